@@ -770,3 +770,10 @@ func (w *World) CountKind(kind string) int {
 	}
 	return n
 }
+
+// Conns lists the connection ends of the world.
+func (w *World) Conns() []*Conn {
+	w.mu.Lock()
+	defer w.mu.Unlock()
+	return append([]*Conn(nil), w.conns...)
+}
